@@ -613,3 +613,209 @@ Proof.
   exists tree_S1, "Foo". destruct iface_orig_witness as [Hh [H1 [H2 [H3 H4]]]].
   split; [exact tree_S1_wf|]. split; [rewrite Hh; auto|]. auto.
 Qed.
+
+(* ------------------------------------------------------------------ which declaration is collected *)
+Lemma merge_not_ignored : forall s own' x,
+  In x (fst (fold_left merge_one_n s ([], own'))) -> ~ In x own'.
+Proof.
+  intros s own' x Hx Hi.
+  set (st := fold_left merge_one_n s ([], own')) in *.
+  assert (H2 : nstate st x = Nat.iter (occ x s) nstep (nstate ([], own') x)) by apply merge_state.
+  rewrite nstate_init in H2. apply mem_In in Hi. rewrite Hi in H2.
+  assert (H3 : Nat.iter (occ x s) nstep 2 = 2).
+  { generalize (occ x s). induction n; simpl; [reflexivity|]. rewrite IHn. reflexivity. }
+  rewrite H3 in H2. unfold nstate in H2.
+  destruct (mem x (snd st)) eqn:E; [|destruct (mem x (fst st)); discriminate].
+  apply mem_In in E. revert E. apply merge_disjoint; [intros y []|assumption].
+Qed.
+
+(* the declaration the collection takes for a name: an own visible method, or the one taken by
+   the embedded field whose interface provides the name *)
+Inductive picks (priv emb flt : bool) : tree -> meth -> Prop :=
+| P_own s own embs m0 :
+    In m0 own -> visible priv m0 = true -> picks priv emb flt (Tr s own embs) m0
+| P_emb s own embs f m0 :
+    emb = true -> In f embs -> picks priv emb flt f m0 ->
+    In (m_name m0) (iface_names_gen priv emb flt f) ->
+    ~ In (m_name m0) (vis_names priv (Tr s own embs)) ->
+    picks priv emb flt (Tr s own embs) m0.
+
+Lemma picks_visible priv emb flt t m0 : picks priv emb flt t m0 -> visn priv (m_name m0) = true.
+Proof. induction 1; [assumption|assumption]. Qed.
+
+Lemma picks_all priv emb flt t m0 : picks priv emb flt t m0 -> In m0 ((fix all (t : tree) : list meth :=
+  match t with Tr _ own embs => (own ++ flat_map all embs)%list end) t).
+Proof.
+  induction 1 as [s own embs m0 Hin _|s own embs f m0 _ Hf _ IH _ _].
+  - apply in_or_app. left. assumption.
+  - apply in_or_app. right. apply in_flat_map. exists f. auto.
+Qed.
+
+Definition matches (lvl : list tree) (n : string) : list meth :=
+  flat_map (fun t => filter (fun m => String.eqb (m_name m) n) (t_own t)) lvl.
+
+Lemma find_level_unfold fuel lvl n :
+  find_level fuel lvl n =
+  match matches lvl n with
+  | m :: _ => Some m
+  | [] => match fuel with O => None | S f => find_level f (flat_map t_emb lvl) n end
+  end.
+Proof. destruct fuel; reflexivity. Qed.
+
+Lemma find_level_nil fuel n : find_level fuel [] n = None.
+Proof. induction fuel; simpl; [reflexivity|assumption]. Qed.
+
+Lemma find_level_fuel : forall fuel lvl n k,
+  Forall (fun t => height t <= fuel) lvl -> find_level (fuel + k) lvl n = find_level fuel lvl n.
+Proof.
+  induction fuel as [|f IH]; intros lvl n k H.
+  - rewrite (find_level_unfold (0 + k)), (find_level_unfold 0).
+    destruct (matches lvl n); [|reflexivity]. destruct k; [reflexivity|]. simpl.
+    rewrite (next_level_empty _ H). apply find_level_nil.
+  - rewrite (find_level_unfold (S f + k)), (find_level_unfold (S f)).
+    destruct (matches lvl n); [|reflexivity]. simpl. apply IH. apply next_level_heights. assumption.
+Qed.
+
+Lemma find_two t n : height t <= 2 ->
+  find_decl t n =
+  match matches [t] n with
+  | m :: _ => Some m
+  | [] => match matches (t_emb t) n with
+          | m :: _ => Some m
+          | [] => match matches (flat_map t_emb (t_emb t)) n with m :: _ => Some m | [] => None end
+          end
+  end.
+Proof.
+  intros Hh. unfold find_decl.
+  replace (find_level (height t) [t] n) with (find_level 2 [t] n).
+  2:{ replace 2 with (height t + (2 - height t)) by lia. apply find_level_fuel.
+      constructor; [lia|constructor]. }
+  rewrite find_level_unfold. destruct (matches [t] n); [|reflexivity].
+  cbn [flat_map]. rewrite app_nil_r. rewrite find_level_unfold.
+  destruct (matches (t_emb t) n); [|reflexivity]. rewrite find_level_unfold. reflexivity.
+Qed.
+
+Lemma filter_name_nil n own : mem n (map m_name own) = false ->
+  filter (fun m => String.eqb (m_name m) n) own = [].
+Proof.
+  induction own as [|m r IH]; simpl; [reflexivity|]. intros H.
+  apply orb_false_iff in H as [H1 H2]. rewrite String.eqb_sym, H1. auto.
+Qed.
+
+Lemma filter_name_own own m0 : NoDup (map m_name own) -> In m0 own ->
+  filter (fun m => String.eqb (m_name m) (m_name m0)) own = [m0].
+Proof.
+  induction own as [|m r IH]; intros Hnd Hin; [contradiction|].
+  simpl in Hnd. inversion Hnd as [|? ? Hnot Hnd']; subst. simpl. destruct Hin as [->|Hin].
+  - rewrite String.eqb_refl. f_equal. apply filter_name_nil. apply mem_false. assumption.
+  - destruct (String.eqb (m_name m) (m_name m0)) eqn:E.
+    + exfalso. apply String.eqb_eq in E. apply Hnot. rewrite E. apply in_map. assumption.
+    + apply IH; assumption.
+Qed.
+
+Lemma filter_name_nonempty n x : mem n (own_names x) = true ->
+  filter (fun m => String.eqb (m_name m) n) (t_own x) <> [].
+Proof.
+  intros Hm H. unfold own_names in Hm. apply mem_In in Hm. apply in_map_iff in Hm as [m [Hm1 Hm2]].
+  assert (Hin : In m (filter (fun m => String.eqb (m_name m) n) (t_own x))).
+  { apply filter_In. split; [assumption|]. apply String.eqb_eq. assumption. }
+  rewrite H in Hin. contradiction.
+Qed.
+
+Lemma matches_zero lvl n : count_level lvl n = 0 -> matches lvl n = [].
+Proof.
+  induction lvl as [|y r IH]; intros H; [reflexivity|]. unfold matches. simpl.
+  change (y :: r) with ([y] ++ r)%list in H. rewrite count_level_app in H.
+  assert (Hy : mem n (own_names y) = false).
+  { unfold count_level in H. simpl in H. destruct (mem n (own_names y)); [simpl in H; lia|reflexivity]. }
+  unfold own_names in Hy. rewrite (filter_name_nil _ _ Hy). simpl. apply IH. lia.
+Qed.
+
+Lemma matches_unique lvl n x : count_level lvl n = 1 -> In x lvl -> mem n (own_names x) = true ->
+  matches lvl n = filter (fun m => String.eqb (m_name m) n) (t_own x).
+Proof.
+  induction lvl as [|y r IH]; intros Hc Hin Hm; [contradiction|].
+  change (y :: r) with ([y] ++ r)%list in Hc. rewrite count_level_app in Hc.
+  unfold matches. simpl. fold (matches r n).
+  destruct (mem n (own_names y)) eqn:Ey.
+  - assert (Hr : count_level r n = 0).
+    { unfold count_level in Hc at 1. simpl in Hc. rewrite Ey in Hc. simpl in Hc. lia. }
+    rewrite (matches_zero _ _ Hr), app_nil_r. destruct Hin as [->|Hin]; [reflexivity|].
+    rewrite (count_level_zero _ _ _ Hr Hin) in Hm. discriminate.
+  - unfold own_names in Ey. rewrite (filter_name_nil _ _ Ey). simpl.
+    destruct Hin as [->|Hin]; [unfold own_names in Hm; congruence|].
+    apply IH; [|assumption|assumption].
+    unfold count_level in Hc at 1. simpl in Hc. unfold own_names in Hc. rewrite Ey in Hc. simpl in Hc. lia.
+Qed.
+
+Lemma filter_two {A} (p : A -> bool) l a b :
+  In a l -> In b l -> a <> b -> p a = true -> p b = true -> 2 <= List.length (filter p l).
+Proof.
+  induction l as [|x r IH]; intros Ha Hb Hne Hpa Hpb; [contradiction|]. simpl.
+  destruct Ha as [->|Ha]; destruct Hb as [->|Hb].
+  - congruence.
+  - rewrite Hpa. simpl. assert (0 < List.length (filter p r)) by (apply length_filter_pos; eauto). lia.
+  - rewrite Hpb. simpl. assert (0 < List.length (filter p r)) by (apply length_filter_pos; eauto). lia.
+  - specialize (IH Ha Hb Hne Hpa Hpb). destruct (p x); simpl; lia.
+Qed.
+
+(* embedding at most two levels deep: the declaration collected for a name is the one Go selects —
+   the unique shallowest declaration of that name *)
+Lemma picks_find_decl priv emb : forall t m0,
+  picks priv emb true t m0 -> height t <= 2 -> wf_tree t ->
+  In (m_name m0) (iface_names priv emb t) -> find_decl t (m_name m0) = Some m0.
+Proof.
+  induction 1 as [s own embs m0 Hin Hv|s own embs f m0 He Hf Hp IH Hif Hno]; intros Hh Hwf Hit.
+  - rewrite (find_two _ _ Hh). unfold matches. cbn [flat_map t_own]. rewrite app_nil_r.
+    rewrite (filter_name_own own m0 (wf_own _ Hwf) Hin). reflexivity.
+  - set (n := m_name m0) in *. set (t := Tr s own embs) in *.
+    assert (Hvis : visn priv n = true) by apply (picks_visible _ _ _ _ _ Hp).
+    change (In n (iface_names priv emb f)) in Hif.
+    assert (Hown : mem n (own_names t) = false).
+    { apply mem_false. intros H. apply Hno. unfold vis_names. apply visn_filter. auto. }
+    assert (Hhf : height f <= 1).
+    { apply height_le in Hh. rewrite Forall_forall in Hh. auto. }
+    assert (Hwff : wf_tree f) by apply (wf_emb t f Hwf Hf).
+    specialize (IH (Nat.le_trans _ _ _ Hhf (le_S _ _ (le_n 1))) Hwff Hif).
+    apply (iface_names_spec priv emb t n Hwf) in Hit as [Hit|[_ [_ [Hms H1]]]]; [contradiction|].
+    subst emb.
+    assert (Hgf : go_ms f n = true) by apply (iface_names_fit priv true f n Hwff Hif).
+    rewrite (go_ms_two t n Hh (wf_own _ Hwf)), Hown in Hms.
+    rewrite (go_ms_one f n Hhf (wf_own _ Hwff)) in Hgf.
+    rewrite (find_two t n Hh).
+    rewrite (find_two f n (Nat.le_trans _ _ _ Hhf (le_S _ _ (le_n 1)))) in IH.
+    assert (M0 : matches [t] n = []).
+    { apply matches_zero. rewrite (count_level_one _ _ (wf_own _ Hwf)), Hown. reflexivity. }
+    rewrite M0. unfold t in Hms, H1 |- *. cbn [t_emb] in Hms, H1 |- *.
+    destruct (count_level embs n) as [|[|c]] eqn:E1; [| |discriminate].
+    + (* declared two levels down *)
+      apply Nat.eqb_eq in Hms.
+      assert (Hof : mem n (own_names f) = false) by apply (count_level_zero _ _ _ E1 Hf).
+      rewrite Hof in Hgf. apply Nat.eqb_eq in Hgf.
+      destruct (count_level_pos (t_emb f) n) as [x [Hx Hmx]]; [lia|].
+      assert (Hx2 : In x (flat_map t_emb embs)) by (apply in_flat_map; eauto).
+      rewrite (matches_zero _ _ E1). rewrite (matches_unique _ _ x Hms Hx2 Hmx).
+      assert (Mf : matches [f] n = []).
+      { apply matches_zero. rewrite (count_level_one _ _ (wf_own _ Hwff)), Hof. reflexivity. }
+      rewrite Mf, (matches_unique _ _ x Hgf Hx Hmx) in IH.
+      pose proof (filter_name_nonempty n x Hmx) as Hne.
+      destruct (filter (fun m => String.eqb (m_name m) n) (t_own x)); [contradiction|exact IH].
+    + (* declared by a field's own type: that field is f *)
+      destruct (count_level_pos embs n) as [g [Hg Hmg]]; [lia|].
+      assert (Hmf : mem n (own_names f) = true).
+      { destruct (mem n (own_names f)) eqn:Ef; [reflexivity|]. exfalso.
+        assert (Hig : mem n (iface_names priv true g) = true).
+        { apply mem_In. assert (Hhg : height g <= 1).
+          { apply height_le in Hh. rewrite Forall_forall in Hh. auto. }
+          apply (iface_one priv g n Hhg (wf_emb t g Hwf Hg)). split; [assumption|].
+          apply go_ms_own; [apply wf_own, (wf_emb t g Hwf Hg)|apply mem_In; assumption]. }
+        assert (Hne : f <> g) by (intros ->; congruence).
+        pose proof (filter_two (fun f => mem n (iface_names priv true f)) embs f g Hf Hg Hne
+                               (proj2 (mem_In _ _) Hif) Hig) as H2.
+        unfold exactly_one_field in H1. lia. }
+      rewrite (matches_unique _ _ f E1 Hf Hmf).
+      assert (Mf : matches [f] n = filter (fun m => String.eqb (m_name m) n) (t_own f)).
+      { unfold matches. cbn [flat_map]. apply app_nil_r. }
+      rewrite Mf in IH. pose proof (filter_name_nonempty n f Hmf) as Hne.
+      destruct (filter (fun m => String.eqb (m_name m) n) (t_own f)); [contradiction|exact IH].
+Qed.
